@@ -49,7 +49,7 @@ Theorem c14_config : forall b r, 10 <= clamp_burst b /\ frate_ge1 (clamp_rate r)
 Proof. intros. split; [apply clamp_burst_ge|apply clamp_rate_ge]. Qed.
 
 (* the clamp as it was written (rate < 1 -> 1) let a not-a-number rate through, and with it
-   the limiter admits everything *)
+   the limiter lets everything through *)
 Theorem c14_old_clamp_refuted : exists r, ~ frate_ge1 (clamp_rate_old r).
 Proof. exists NaN. exact (proj2 clamp_rate_old_nan). Qed.
 
